@@ -47,6 +47,7 @@ THEOREMS = [
 ]
 
 REQ = "From Verif Require Import Lib.Dyadic Model.C10_Attr Model.C10_File Model.C10_Session."
+REQ2 = "From Verif Require Import Lib.Dyadic Model.C10_Attr Model.C10_File Model.C10_Graph."
 
 QUIRK_OF_VERDICT = {
     2: ("c10_nan_word", "strings containing nan/inf as a word (or NaN/Inf dict keys) are corrupted or rejected by decode_h5attr's regex"),
@@ -54,6 +55,8 @@ QUIRK_OF_VERDICT = {
     4: ("c10_shallow_memo", "fields in nested collections are not in the write memo: a forward reference is written as a private copy, identity is lost"),
     5: ("c10_parent_lookup", "a not-yet-read referenced field is looked up in the parent group under its dotted name: KeyError for fields in collections"),
     6: ("c10_np_string_removed", "np.string_ was removed in NumPy 2: writing any text field raises AttributeError"),
+    9: ("c10_bare_attr_names", "embedded attribute objects are named by the bare attribute name in the write/read memos: a shared embedded "
+        "object is confused with another field's embedded object of the same attribute name, or cannot be resolved (KeyError)"),
 }
 
 
@@ -239,6 +242,24 @@ def container_ids(v, out=None):
     return out
 
 
+def float_pairs(v, out=None):
+    """(repr text, exact double) of every finite float leaf of v, dict keys included"""
+    import numpy as np
+    out = [] if out is None else out
+    if isinstance(v, (float, np.floating)) and not isinstance(v, bool):
+        x = float(v)
+        if not (math.isnan(x) or math.isinf(x)):
+            out.append(emit.pair(emit.s(repr(x)), emit.dy(x)))
+    elif isinstance(v, (list, tuple, set, frozenset)):
+        for x in v:
+            float_pairs(x, out)
+    elif isinstance(v, dict):
+        for k, x in v.items():
+            float_pairs(k, out)
+            float_pairs(x, out)
+    return out
+
+
 def file_digest(path):
     import hashlib
     with open(path, "rb") as f:
@@ -256,7 +277,8 @@ def attr_case(H, v):
             e = H.encode_h5attr(v)
     except Exception as ex:  # noqa: BLE001 - every exception is an observation
         oe = f"(ORaise {emit.s(type(ex).__name__)})"
-        return emit.pair(t, oe, "ONotRun", "ONotRun", "false"), dict(value=repr(v), encode_raised=f"{type(ex).__name__}: {ex}"[:200])
+        return (emit.pair(emit.pair(t, oe, "ONotRun", "ONotRun", "false"), emit.lst(float_pairs(v)), "[]"),
+                dict(value=repr(v), encode_raised=f"{type(ex).__name__}: {ex}"[:200]))
     if isinstance(e, str):
         oe = f"(OText {emit.s(e)})" if all(32 <= ord(c) < 127 for c in e) else "(ORaise \"non-ascii\")"
         stored = e
@@ -284,6 +306,7 @@ def attr_case(H, v):
             return None, f"(ODRaise {emit.s(type(ex).__name__)})", f"{type(ex).__name__}: {ex}"[:200]
 
     dv1, od1, dec1 = dec()
+    fdec = emit.lst(float_pairs(dv1))
     ids1 = container_ids(dv1)
     mutate_in_place(dv1)            # the caller goes on working with what it got ...
     dv2, od2, dec2 = dec()          # ... the stored value is decoded again
@@ -292,7 +315,7 @@ def attr_case(H, v):
     rep = dict(value=repr(v), encoded=repr(e), decoded=dec1, decoded_again_after_mutating_first_result=dec2,
                results_share_objects=aliased,
                how="x = decode_h5attr(encode_h5attr(value)); mutate x in place (append/setitem/add); decode_h5attr(same text) again")
-    return emit.pair(t, oe, od1, od2, emit.b(aliased)), rep
+    return emit.pair(emit.pair(t, oe, od1, od2, emit.b(aliased)), emit.lst(float_pairs(v)), fdec), rep
 
 
 # ============================================================================= B. datasets
@@ -424,6 +447,167 @@ def dataset_term(ds, info=None):
     vars_ = emit.lst(emit.pair(tree_term(k), tree_term(v)) for k, v in ds.vars.items())
     return ("{| d_fields := %s; d_meta := %s; d_vars := %s; d_numobs := %s; d_version := %s |}"
             % (emit.lst(ents), meta, vars_, emit.z(int(ds.num_obs)), emit.s(ds.version)))
+
+
+# ----------------------------------------------------------------------------- graph model (Model/C10_Graph.v)
+FINAL_CLASSES = ("PositionArray", "PositionDeltaArray", "PosVelArray")   # their _write ends with memo[id(self)] = ...
+
+
+def obj_payload_refs(obj):
+    """(payload term, [(attr, object)]) like obj_parts, for any data object"""
+    return obj_parts(obj)
+
+
+def graph_term(ds, info=None):
+    """Coq `gdataset`: fields + table of all data objects (field objects under KF path, private ones under KP n)"""
+    fl = walk_fields(ds)
+    fids = {}
+    for p, f in fl:
+        if f.fieldtype != "collection":
+            fids.setdefault(id(f.data), p)
+    priv = {}            # id -> n
+    nodes = []           # (key term, node term)
+    keep = []            # keep objects alive while ids are used
+
+    def key_of(o):
+        if id(o) in fids:
+            return f"(KF {path_term(fids[id(o)])})"
+        if id(o) not in priv:
+            priv[id(o)] = len(priv)
+            keep.append(o)
+            add_node(f"(KP {emit.nat(priv[id(o)])})", o)
+        return f"(KP {emit.nat(priv[id(o)])})"
+
+    def add_node(kterm, o):
+        pl, refs = obj_payload_refs(o)
+        slot = len(nodes)
+        nodes.append(None)
+        rts = [emit.pair(emit.s(a), key_of(x)) for a, x in refs]
+        final = getattr(o, "cls_name", None) in FINAL_CLASSES
+        nodes[slot] = emit.pair(kterm, "{| n_pl := %s; n_final := %s; n_refs := %s |}" % (pl, emit.b(final), emit.lst(rts)))
+
+    ents = []
+    for p, f in fl:
+        if f.fieldtype == "collection":
+            ents.append(emit.pair(path_term(p), "GColl"))
+            continue
+        if fids[id(f.data)] != p:
+            raise Unrepresentable("two fields share one data object")
+        add_node(f"(KF {path_term(p)})", f.data)
+        unit = f._unit
+        if unit is not None:
+            unit = [unit] if isinstance(unit, str) else list(unit)
+        ents.append(emit.pair(path_term(p), "(GLeaf {| gl_kind := %s; gl_level := %s; gl_unit := %s; gl_mult := %s |})"
+                              % (emit.s(f.fieldtype), emit.z(int(f._write_level)),
+                                 emit.opt(None if unit is None else emit.lst(emit.s(u) for u in unit)), emit.z(int(f.multiplier)))))
+    if info is not None:
+        info["n_private"] = len(priv)
+    meta = emit.lst(emit.pair(emit.s(k), tree_term(v)) for k, v in ds.meta.items())
+    vars_ = emit.lst(emit.pair(tree_term(k), tree_term(v)) for k, v in ds.vars.items())
+    return ("{| g_fields := %s; g_objs := %s; g_meta := %s; g_vars := %s; g_numobs := %s; g_version := %s |}"
+            % (emit.lst(ents), emit.lst(nodes), meta, vars_, emit.z(int(ds.num_obs)), emit.s(ds.version)))
+
+
+def tdataset_term(ds):
+    """Coq `tdataset`: the dataset with every data object unfolded; a reference to a field's object is that field"""
+    fl = walk_fields(ds)
+    fids = {}
+    for p, f in fl:
+        if f.fieldtype != "collection":
+            fids.setdefault(id(f.data), p)
+
+    def tobj(o, depth=0):
+        if depth > 20:
+            raise Unrepresentable("cyclic object graph")
+        pl, refs = obj_payload_refs(o)
+        rts = []
+        for a, x in refs:
+            if id(x) in fids:
+                rts.append(emit.pair(emit.s(a), f"(TRF {path_term(fids[id(x)])})"))
+            else:
+                rts.append(emit.pair(emit.s(a), f"(TRO {tobj(x, depth + 1)})"))
+        return f"(TObj {pl} {emit.lst(rts)})"
+
+    ents = []
+    for p, f in fl:
+        if f.fieldtype == "collection":
+            ents.append(emit.pair(path_term(p), "TColl"))
+            continue
+        unit = f._unit
+        if unit is not None:
+            unit = [unit] if isinstance(unit, str) else list(unit)
+        ents.append(emit.pair(path_term(p), "(TLeaf %s %s %s %s %s)"
+                              % (emit.s(f.fieldtype), emit.z(int(f._write_level)),
+                                 emit.opt(None if unit is None else emit.lst(emit.s(u) for u in unit)), emit.z(int(f.multiplier)),
+                                 tobj(f.data))))
+    meta = emit.lst(emit.pair(emit.s(k), tree_term(v)) for k, v in ds.meta.items())
+    vars_ = emit.lst(emit.pair(tree_term(k), tree_term(v)) for k, v in ds.vars.items())
+    return "{| t_fields := %s; t_meta := %s; t_vars := %s; t_numobs := %s |}" % (emit.lst(ents), meta, vars_, emit.z(int(ds.num_obs)))
+
+
+def oh5o_term(g, skip=()):
+    import h5py
+    sat, data, items = [], [], []
+    for k, v in g.attrs.items():
+        if k in ("fieldname", "__class__") or k in skip or k in REFNAMES:
+            continue
+        sat.append(emit.pair(emit.s(k), sattr(v)))
+    # reference attributes in the order of the classes' attribute lists (other, ref_pos, time)
+    names = [a for a in REFNAMES if a in g.attrs or (a in g and isinstance(g[a], h5py.Group))]
+    names += [k for k in g if isinstance(g[k], h5py.Group) and k not in names]
+    for a in names:
+        if a in g.attrs:
+            items.append(emit.pair(emit.s(a), f"(OIName {path_term(sattr_raw(g.attrs[a]).split('.'))})"))
+        if a in g and isinstance(g[a], h5py.Group):
+            items.append(emit.pair(emit.s(a), f"(OISub {oh5o_term(g[a])})"))
+    for k in g:
+        if isinstance(g[k], h5py.Dataset):
+            data.append(emit.pair(emit.s(k), arr_term(g[k][...])))
+    return ("(OH5o %s %s %s %s %s)" % (sattr(g.attrs["__class__"]), sattr(g.attrs["fieldname"]), emit.lst(sat), emit.lst(data),
+                                      emit.lst(items)))
+
+
+def sattr_raw(v):
+    if isinstance(v, bytes):
+        v = v.decode("latin1")
+    if not isinstance(v, str):
+        raise Unrepresentable(f"attribute value {v!r}")
+    return v
+
+
+def ofile2_term(path):
+    import ast
+    import h5py
+    groups = []
+
+    def rec(h5g, prefix):
+        text = h5g.attrs["fields"]
+        if not isinstance(text, str) or not text.startswith("dict "):
+            raise Unrepresentable(f"fields attribute {text!r}")
+        fd = ast.literal_eval(text[5:])
+        extra = [k for k in h5g if isinstance(h5g[k], h5py.Group) and k not in fd and not (prefix == [] and k == "__meta__")]
+        for name in list(fd.keys()) + extra:
+            kind = fd.get(name, "<unlisted>")
+            p = prefix + [name]
+            if name not in h5g:
+                groups.append(emit.pair(path_term(p), "(OColl2 \"<missing>\" (OAText \"\"))"))
+                continue
+            g = h5g[name]
+            if kind == "collection":
+                groups.append(emit.pair(path_term(p), f"(OColl2 {sattr(g.attrs['fieldname'])} {oaval_term(g.attrs['fields'])})"))
+                rec(g, p)
+                continue
+            groups.append(emit.pair(path_term(p),
+                          "(OLeaf2 {| og2_kind := %s; og2_unit := %s; og2_level := %s; og2_mult := %s; og2_obj := %s |})"
+                          % (emit.s(kind), oaval_term(g.attrs["unit"]), sattr(g.attrs["write_level"]),
+                             emit.z(int(g.attrs["multiplier"])), oh5o_term(g, skip=STD_ATTRS))))
+
+    with h5py.File(path, "r") as f:
+        rec(f, [])
+        meta = emit.lst(emit.pair(emit.s(k), oaval_term(v)) for k, v in f["__meta__"].attrs.items())
+        return ("{| of2_fields := %s; of2_numobs := %s; of2_vars := %s; of2_version := %s; of2_groups := %s; of2_meta := %s |}"
+                % (oaval_term(f.attrs["fields"]), emit.z(int(f.attrs["num_obs"])), oaval_term(f.attrs["vars"]),
+                   sattr(f.attrs["version"]), emit.lst(groups), meta))
 
 
 def oaval_term(v):
@@ -560,7 +744,7 @@ def gen_spec(rng, with_text):
             elif r < 0.8:
                 l["refs"][a] = ("owned", want[0])
         made.append(l)
-    return dict(n=n, leaves=leaves, pi=pi, colls=colls)
+    return dict(n=n, leaves=leaves, pi=pi, colls=colls, rich=rng.random() < 0.35)
 
 
 def lvl_num(l):
@@ -613,6 +797,29 @@ def build_dataset(rng, spec):
             return position.PosVelDelta(finite((n, 6), -10, 10), system=system, **refs)
         raise ValueError(kind)
 
+    rich = spec.get("rich", False)
+    pool = {}            # kind -> private objects made so far (rich: may be shared)
+
+    def private(kind):
+        """a private attribute object; rich datasets share them and give them references of their own"""
+        if rich and pool.get(kind) and rng.random() < 0.4:
+            return rng.choice(pool[kind])
+        refs = {}
+        if rich and kind == "position" and rng.random() < 0.5:
+            r = rng.random()
+            made_pos = [o for o in objs.values() if getattr(o, "cls_name", "") == "PositionArray"]
+            if r < 0.35:
+                refs["time"] = private("time")
+            elif r < 0.7 and made_pos:
+                refs["other"] = rng.choice(made_pos)            # private object -> field object
+            elif r < 0.85:
+                refs["time"] = private("time")
+                if pool.get("position"):
+                    refs["other"] = rng.choice(pool["position"])   # private -> private under the same name: HDF5 refuses
+        o = mk_time() if kind == "time" else mk_obj(kind, refs)
+        pool.setdefault(kind, []).append(o)
+        return o
+
     # times first (they can be referenced), then position-like objects in creation order
     objs = {}
     for l in spec["leaves"]:
@@ -623,14 +830,12 @@ def build_dataset(rng, spec):
         for a, (how, tgt) in l.get("refs", {}).items():
             if how == "field":
                 refs[a] = objs[id(tgt)]
-            elif tgt == "time":
-                refs[a] = mk_time()
             else:
-                refs[a] = mk_obj(tgt, {})
+                refs[a] = private(tgt)
         if l["kind"] == "position_delta" and "ref_pos" not in refs:
-            refs["ref_pos"] = mk_obj("position", {})
+            refs["ref_pos"] = private("position")
         if l["kind"] == "posvel_delta" and "ref_pos" not in refs:
-            refs["ref_pos"] = mk_obj("posvel", {})
+            refs["ref_pos"] = private("posvel")
         objs[id(l)] = mk_obj(l["kind"], refs)
 
     ds = dataset.Dataset(n)
@@ -678,28 +883,43 @@ def gen_meta(rng, ds, dirty):
 
 
 def run_dataset_case(ctx, idx, rng, corpus=None, reread=False):
-    """build, write, inspect, read, describe -> (case term, replay dict, tags); with reread: info["reread_term"]"""
+    """build, write, inspect, read, describe -> (case term for Model/C10_File or None, replay dict, info);
+    info["g_case"]: the case for Model/C10_Graph (always); with reread: info["reread_term"]"""
     import numpy as np
     from midgard.data import dataset
     with_text = rng.random() < 0.4
     dirty = rng.random() < 0.12
+    rich = False
     if corpus is not None:
         ds, lvl, tag = corpus()
     else:
         spec = gen_spec(rng, with_text)
-        prune_refs(spec)
+        rich = spec["rich"]
+        if not rich:
+            prune_refs(spec)
         ds = build_dataset(rng, spec)
         gen_meta(rng, ds, dirty)
         lvl = rng.choice(["detail", "detail", "analysis", "operational", None])
-        tag = "random"
+        tag = "random-rich" if rich else "random"
     info = {}
-    d_term = dataset_term(ds, info)
+
+    def v1(fn):
+        """a description in the restricted model; None when the dataset is outside it"""
+        try:
+            return fn()
+        except Unrepresentable:
+            return None
+
+    d_term = None if rich else v1(lambda: dataset_term(ds, info))
+    g_term = graph_term(ds, info)
     lvl_n = 1 if lvl is None else LEVELS[lvl]
-    info["hyp_term"] = emit.pair(d_term, emit.z(lvl_n))
+    if d_term is not None:
+        info["hyp_term"] = emit.pair(d_term, emit.z(lvl_n))
     path = os.path.join(ctx.work, f"ds_{idx:05d}.hdf5")
     rep = dict(kind="dataset", tag=tag, index=idx, write_level=lvl,
                fields=[(".".join(p), f.fieldtype, f._write_level.name) for p, f in walk_fields(ds)],
-               references=info.get("refs", []), meta=repr(dict(ds.meta))[:600], num_obs=int(ds.num_obs),
+               references=info.get("refs", []), private_objects=info.get("n_private"), meta=repr(dict(ds.meta))[:600],
+               num_obs=int(ds.num_obs),
                how="generated by harness/drivers/c10.py (same VERIF_SEED, same index); ds.write(path, write_level); Dataset.read(path)")
     try:
         with warnings.catch_warnings():
@@ -709,24 +929,32 @@ def run_dataset_case(ctx, idx, rng, corpus=None, reread=False):
         rep["write_raised"] = f"{type(ex).__name__}: {ex}"[:300]
         if os.path.exists(path):
             os.remove(path)
-        return emit.pair(d_term, emit.z(lvl_n), f"(OWRaise {emit.s(type(ex).__name__)})", "ORNotRun"), rep, info
-    ow = f"(OWFile {ofile_term(path)})"
+        info["g_case"] = emit.pair(g_term, emit.z(lvl_n), f"(OW2Raise {emit.s(type(ex).__name__)})", "OR2NotRun")
+        t1 = None if d_term is None else emit.pair(d_term, emit.z(lvl_n), f"(OWRaise {emit.s(type(ex).__name__)})", "ORNotRun")
+        return t1, rep, info
+    ow = v1(lambda: f"(OWFile {ofile_term(path)})") if d_term is not None else None
+    ow2 = f"(OW2File {ofile2_term(path)})"
     digest0 = file_digest(path) if reread else None
     back = None
+    ord_ = None
     try:
         with warnings.catch_warnings():
             warnings.simplefilter("ignore")
             back = dataset.Dataset.read(path)
-        info2 = {}
-        ord_ = f"(ORData {dataset_term(back, info2)})"
+        ord2 = f"(OR2Data {tdataset_term(back)})"
         rep["read_fields"] = [(".".join(p), f.fieldtype) for p, f in walk_fields(back)]
-        # diagnosis only (the verdict is Coq's): which written fields are described differently after reading
-        e1, e2 = info.get("entries", {}), info2.get("entries", {})
-        what = ["level", "payload (class/attributes/arrays)", "references", "unit", "multiplier"]
-        rep["diagnosis"] = [f"{k}: {what[i]} differ" for k in e1 if e1[k][0] >= lvl_n and k in e2
-                            for i in range(5) if e1[k][i] != e2[k][i]][:8] + \
-                           [f"{k}: missing after read" for k in e1 if e1[k][0] >= lvl_n and k not in e2][:4] + \
-                           [f"{k}: unexpected after read" for k in e2 if k not in e1 or e1[k][0] < lvl_n][:4]
+        if ow is not None:
+            info2 = {}
+            od = v1(lambda: dataset_term(back, info2))
+            if od is not None:
+                ord_ = f"(ORData {od})"
+                # diagnosis only (the verdict is Coq's): which written fields are described differently after reading
+                e1, e2 = info.get("entries", {}), info2.get("entries", {})
+                what = ["level", "payload (class/attributes/arrays)", "references", "unit", "multiplier"]
+                rep["diagnosis"] = [f"{k}: {what[i]} differ" for k in e1 if e1[k][0] >= lvl_n and k in e2
+                                    for i in range(5) if e1[k][i] != e2[k][i]][:8] + \
+                                   [f"{k}: missing after read" for k in e1 if e1[k][0] >= lvl_n and k not in e2][:4] + \
+                                   [f"{k}: unexpected after read" for k in e2 if k not in e1 or e1[k][0] < lvl_n][:4]
         if repr(dict(back.meta)) != repr(dict(sorted(ds.meta.items()))):
             rep["meta_after"] = repr(dict(back.meta))[:600]
         if dict(back.vars) != dict(ds.vars):
@@ -735,12 +963,15 @@ def run_dataset_case(ctx, idx, rng, corpus=None, reread=False):
         raise
     except Exception as ex:  # noqa: BLE001
         ord_ = f"(ORRaise {emit.s(type(ex).__name__)})"
+        ord2 = f"(OR2Raise {emit.s(type(ex).__name__)})"
         rep["read_raised"] = f"{type(ex).__name__}: {ex}"[:300]
-    if reread:
+    info["g_case"] = emit.pair(g_term, emit.z(lvl_n), ow2, ord2)
+    t1 = None if (ow is None or ord_ is None) else emit.pair(d_term, emit.z(lvl_n), ow, ord_)
+    if reread and t1 is not None:
         info["reread_term"] = emit.pair(d_term, emit.z(lvl_n), ow, ord_, *reread_observation(path, back, digest0, rep))
     if not os.environ.get("VERIF_KEEP_WORK"):
         os.remove(path)
-    return emit.pair(d_term, emit.z(lvl_n), ow, ord_), rep, info
+    return t1, rep, info
 
 
 def reread_observation(path, back, digest0, rep):
@@ -974,19 +1205,21 @@ def run(ctx):
         ctx.count("attr:" + type(v).__name__)
         nontriv = isinstance(v, (list, tuple, set, dict)) and len(v) > 0
         ctx.case(("A", canon(v)), nontrivial=nontriv, sample=rep if nontriv and len(metaA) % 500 == 7 else None)
-    vsA = ctx.coq_cases(emit.shard_terms("check_attr2", casesA, 250), REQ)
+    vsA = ctx.coq_cases(emit.shard_terms("check_attr3", casesA, 250), REQ)
     flatA = emit.flatten_verdicts(vsA, len(casesA))
 
     # ---- B. datasets
     casesB, metaB, hypB = [], [], []
     casesR, metaR = [], []
+    casesG, metaG = [], []
     corp = corpus_cases()
     n_hand = len(corp)
     corp = corp + grid_cases(not ctx.quick())
     n_ds += len(corp) - n_hand
     idx = 0
     skipped = 0
-    while len(casesB) < n_ds and idx < n_ds * 3:
+    n_done = 0
+    while n_done < n_ds and idx < n_ds * 3:
         c = corp[idx] if idx < len(corp) else None
         try:
             term, rep, info = run_dataset_case(ctx, idx, rng, corpus=c, reread=(idx % 3 == 0 or idx < n_hand))
@@ -997,9 +1230,15 @@ def run(ctx):
             idx += 1
             continue
         idx += 1
-        casesB.append(term)
-        metaB.append(rep)
-        hypB.append(info.pop("hyp_term"))
+        casesG.append(info.pop("g_case"))
+        metaG.append(dict(rep, kind="dataset (object graph model)"))
+        n_done += 1
+        if term is not None:
+            casesB.append(term)
+            metaB.append(rep)
+            hypB.append(info.pop("hyp_term"))
+        else:
+            ctx.count("dataset:graph-model-only")
         if "reread_term" in info:
             casesR.append(info.pop("reread_term"))
             metaR.append(dict(rep, kind="dataset-read-twice"))
@@ -1021,6 +1260,8 @@ def run(ctx):
                  nontrivial=nontriv, sample=rep if nontriv and len(metaB) % 60 == 11 else None)
     vsB = ctx.coq_cases(emit.shard_terms("check_run", casesB, 12), REQ)
     flatB = emit.flatten_verdicts(vsB, len(casesB))
+    vsG = ctx.coq_cases(emit.shard_terms("check_run2", casesG, 12), REQ2)
+    flatG = emit.flatten_verdicts(vsG, len(casesG))
     vsR = ctx.coq_cases(emit.shard_terms("check_reread", casesR, 8), REQ)
     flatR = emit.flatten_verdicts(vsR, len(casesR))
     # how many generated datasets meet the hypotheses of file_roundtrip (wf, tree_shaped, closed)
@@ -1071,15 +1312,18 @@ def run(ctx):
                 ctx.finding(fid, "a field named like a reference attribute (other/ref_pos/time) is read back with the data of another field's private attribute object", rep)
 
     # ---------------------------------------------------------------- decide
-    for name, flat, meta in (("A", flatA, metaA), ("B", flatB, metaB), ("R", flatR, metaR)):
+    for name, flat, meta in (("A", flatA, metaA), ("B", flatB, metaB), ("R", flatR, metaR), ("G", flatG, metaG)):
         if flat is None:
             ctx.violation({"broken": f"correspondence shard {name} did not evaluate in Coq", "errors": ctx.last_coq_errors[:2]},
                           what="correspondence (model evaluation) failed", found=False)
             continue
-        for v, rep in zip(flat, meta):
+        terms = {"G": casesG, "B": casesB}.get(name)
+        for n_, (v, rep) in enumerate(zip(flat, meta)):
             if v == 0:
                 continue
             rep = dict(rep, verdict=v)
+            if v == 1 and terms is not None and len(terms[n_]) < 200000:
+                rep["coq_case"] = terms[n_]          # evaluate with check_run / check_run2 to replay the comparison
             if v in QUIRK_OF_VERDICT:
                 ctx.count(f"quirk:{QUIRK_OF_VERDICT[v][0]}")
                 ctx.finding(QUIRK_OF_VERDICT[v][0], QUIRK_OF_VERDICT[v][1], rep)
